@@ -5,7 +5,7 @@ correspondence: generated documents (and their permuted variants) loaded with ce
                 cmeta ids, assigned_to -- the model predicts every order the code takes from a Python container
 oracle:         (a) every document is loaded in 4 fresh interpreters, PYTHONHASHSEED in {0, 1, 2, random}: ordered
                 variables, ordered equations, get_state_variables, get_derived_quantities, get_derivatives,
-                get_equations_for(all) must be identical; (b) each permutation kind (units, groups, connections,
+                get_equations_for(all) must be identical; (b) each permutation kind (units: random, every definition before / after what it is built from; groups, connections,
                 map_variables, the two ends of a connection, equations / math elements, components) is applied and
                 the order-insensitive observables must be unchanged, the name-sorted queries
                 (get_equations_for in all its variants, get_free_variable) identical for every kind, the
@@ -23,7 +23,7 @@ import vlib
 
 GEN_DEPS = ('builtins', 'prefixes')
 SEEDS = ['0', '1', '2', 'random']
-ORDERED_KEYS = ('var_order', 'eq_order', 'states', 'derived', 'derivatives', 'states_unsorted', 'derived_unsorted',
+ORDERED_KEYS = ('annotations', 'var_order', 'eq_order', 'states', 'derived', 'derivatives', 'states_unsorted', 'derived_unsorted',
                 'derivatives_unsorted', 'eqs_for', 'eqs_for_units', 'eqs_for_top',
                 'eqs_for_each', 'free')
 # name-sorted queries: their answers depend on the equation graph only, never on the order of anything in the file
@@ -156,7 +156,7 @@ def evaluate(ctx, cases, obs, use_model=True):
                     bad += [k for k in GRAPH_KEYS if base.get(k) != o.get(k)]
                     if bad:
                         what = 'the ordered query %s: %r' % (bad[0], first_diff(base.get(bad[0]), o.get(bad[0])))
-                    elif kind in ('units', 'groups', 'ends') and base['eq_order'] != o['eq_order']:
+                    elif kind in ('units', 'units_reversed', 'units_forward', 'groups', 'ends') and base['eq_order'] != o['eq_order']:
                         what = 'the order of Model.equations'
             if what is not None:
                 ctx.violation('document %s: permuting %s changes %s' % (c['gen_seed'], kind, what),
@@ -186,7 +186,7 @@ def first_diff(a, b):
 
 def run(ctx):
     ctx.rule = ('valid documents from tools/loader_gen.py, each loaded in 4 fresh interpreters (PYTHONHASHSEED 0, 1, 2, '
-                'random) and once per applicable permutation kind (units, groups, connections, map_variables, ends, '
+                'random) and once per applicable permutation kind (units: random, every definition before / after what it is built from; groups, connections, map_variables, ends, '
                 'maths, components); non-trivial = every case (every document has several constants and connections)')
     ctx.trusted += ['hash randomisation is only run, not modelled: 4 hash seeds per document',
                     'the <units> part enters the model as the table computed by Model/UnitsLoader.v (C03)']
